@@ -254,7 +254,12 @@ def run_spline_wrappers(ck, facts):
         ck.fail(r6, "PPSpline::bspldnev", "rule could not be established (%s)" % e, where)
     # --- Python-facing classes
     core = lambda name: (lambda ev, vals, e: Sym("core", name, *[vkey(v) for v in vals]))
-    hooks = {"::" + n: core(n) for n in ("ppdnev_single", "ppdnev_single_dual", "ppdnev_single_dual2", "bspldnev", "csolve")}
+    # only the core type's methods are summarised (the Python-facing siblings of the same name are inlined: `bsplev` may call the wrapper `bspldnev(x, i, 0)`)
+    hooks = {}
+    for n in ("ppdnev_single", "ppdnev_single_dual", "ppdnev_single_dual2", "bspldnev", "csolve"):
+        for r_ in facts.all_fns():
+            if r_["fn"].startswith("splines::spline::") and r_["fn"].endswith("::" + n):
+                hooks[r_["fn"]] = core(n)
     INNER = Sym("field", "inner")
     me = Rec("py-self", {"inner": INNER})
     const_num = {D1: lambda f: Rec(D1, {"real": f, "dual": Poly({}, 1), "vars": Sym("novars")}),
